@@ -192,3 +192,40 @@ Proof.
   rewrite (acl_remote_config_exact ne ps r Hps Hok), Ha, (views_serve_exact_l views r q t Hv Hok).
   destruct (spec_subquery r); [reflexivity|]. destruct (spec_client_ip r); reflexivity.
 Qed.
+
+(* ---------------- a resolver-internal sub-query against the client policy: two independent mechanisms *)
+
+(* (1) the flag: a request whose writer is internal passes the access list and views in ANY pipeline, whatever
+   handlers it holds and in whatever order, whatever the list and the views say *)
+Lemma internal_walk_resolves order acl views r q t :
+  writer_internal r = true -> chain_walk order acl views r q t = CResolve.
+Proof.
+  intros Hi. induction order as [|h rest IH]; [reflexivity|]. cbn [chain_walk].
+  unfold acl_serve_remote, acl_serve, views_serve. rewrite Hi.
+  destruct (name_eqb h n_h_accesslist); [exact IH|].
+  destruct (name_eqb h n_h_views); [destruct views; exact IH|].
+  destruct (name_eqb h cache_handler_name); [reflexivity|exact IH].
+Qed.
+
+(* (2) the pipeline: a pipeline that holds neither the access list nor views polices nobody - whoever asks *)
+Lemma policy_free_walk_resolves order acl views r q t :
+  policy_free order = true -> chain_walk order acl views r q t = CResolve.
+Proof.
+  unfold policy_free. induction order as [|h rest IH]; intros Hf; [reflexivity|].
+  cbn [forallb] in Hf. apply andb_true_iff in Hf. destruct Hf as [Hh Hr]. apply andb_true_iff in Hh. destruct Hh as [A B].
+  apply negb_true_iff in A. apply negb_true_iff in B. cbn [chain_walk]. rewrite A, B.
+  destruct (name_eqb h cache_handler_name); [reflexivity|exact (IH Hr)].
+Qed.
+
+Lemma sub_orders_policy_free via : policy_free (sub_order handler_order via) = true.
+Proof. unfold sub_order. destruct (via =? 0); vm_compute; reflexivity. Qed.
+
+(* both hold for the sub-query pipelines the source builds NOW and the writer Queryer.Query installs: the sub-query
+   is resolved for every access list, every view configuration and every question *)
+Lemma subquery_walk_resolves via acl views q t :
+  subquery_walk handler_order via acl views q t = CResolve.
+Proof. unfold subquery_walk. apply policy_free_walk_resolves, sub_orders_policy_free. Qed.
+Lemma subquery_never_policed via acl views q t :
+  subquery_walk handler_order via acl views q t = CResolve /\
+  policy_free (sub_order handler_order via) = true /\ writer_internal subquery_remote = true.
+Proof. split; [apply subquery_walk_resolves|]. split; [apply sub_orders_policy_free|apply subquery_internal]. Qed.
